@@ -29,7 +29,10 @@ Cmds ==
     {[kind |-> "shell", args |-> a, opts |-> o, progopt |-> p, command |-> c] :
         a \in Seqs(Tokens, MaxOpts), o \in Seqs(Tokens, MaxOpts), p \in {"-", "-c", "T1"}, c \in Tokens}
 
+\* the spawn options: `grouped`, `session` (which implies grouped, also when both are set) and `reset_sigmask`
+\* (which does not place the child anywhere)
 Modes == {"plain", "grouped", "session"}
+ModesAll == Modes \cup {"session+grouped", "plain+sigmask", "grouped+sigmask", "session+sigmask", "session+grouped+sigmask"}
 
 \* what the child must see after argv[0]
 Argv(cmd) ==
@@ -37,9 +40,9 @@ Argv(cmd) ==
     ELSE cmd.opts \o (IF cmd.progopt = "-" THEN <<>> ELSE <<cmd.progopt>>) \o <<cmd.command>> \o cmd.args
 
 Placement(mode) ==
-    CASE mode = "plain"   -> [own_group |-> FALSE, own_session |-> FALSE]
-      [] mode = "grouped" -> [own_group |-> TRUE,  own_session |-> FALSE]
-      [] mode = "session" -> [own_group |-> TRUE,  own_session |-> TRUE]
+    CASE mode \in {"plain", "plain+sigmask"}     -> [own_group |-> FALSE, own_session |-> FALSE]
+      [] mode \in {"grouped", "grouped+sigmask"} -> [own_group |-> TRUE,  own_session |-> FALSE]
+      [] OTHER                                   -> [own_group |-> TRUE,  own_session |-> TRUE]
 
 Vias == {"start", "restart", "restart_with_signal", "try_restart", "try_restart_with_signal"}
 \* (every way of respawning for the short commands, the first start for all)
@@ -47,9 +50,14 @@ ViasFor(c) == IF (c.kind = "exec" /\ Len(c.args) <= 1)
                  \/ (c.kind = "shell" /\ c.args = <<>> /\ Len(c.opts) <= 1 /\ c.command = "T1")
               THEN Vias ELSE {"start"}
 
+Short(c) == (c.kind = "exec" /\ Len(c.args) <= 1)
+            \/ (c.kind = "shell" /\ c.args = <<>> /\ Len(c.opts) <= 1 /\ c.command = "T1")
+\* (every combination of options for the short commands, the three basic ones for all)
+ModesFor(c, v) == IF Short(c) /\ v \in {"start", "restart_with_signal"} THEN ModesAll ELSE Modes
+
 VARIABLES cmd, mode, via, built, pc
 
-Init == cmd \in Cmds /\ mode \in Modes /\ via \in ViasFor(cmd) /\ built = <<>> /\ pc = "start"
+Init == cmd \in Cmds /\ via \in ViasFor(cmd) /\ mode \in ModesFor(cmd, via) /\ built = <<>> /\ pc = "start"
 
 \* to_spawnable(): the argument vector is pushed part by part
 Build ==
